@@ -148,8 +148,21 @@ def run(ctx: Ctx) -> None:
     for _ in range(ctx.pick(40, 400)):
         e = T.rand_expr(rng, rng.randint(1, 6), leaf)
         s = T.render(e, T.Style(rng, "min", "rand", "one")).strip()
-        pk = {l[1]: "[1] U [502]" for l in T.leaves(e) if l[0] == "pkg"}
+        pk = {l[1]: rng.choice(["[1] U [502]", "[UB1] U [21]", "[3] O [UB3]", "[7][UB2]", "[22] X [950]"]) for l in T.leaves(e) if l[0] == "pkg"}
         evalenv.set_cer(evalenv.make_cer(packages=pk))
+        # the extract of the resolved expression = the union of the extracts of what the abbreviations stand for = the extract of the textually substituted expression
+        from .c10 import substituted
+        st0 = T.Style(rng, "min", "upper", "one")
+        try:
+            via_text = P.parse_cond(substituted(e, pk, st0, True, True))
+            want_text = extract_dict(extract_categorized_keys_from_tree(via_text["lark"], sanitize=True)) if "err" not in via_text else None
+            got_res = extract_dict(asyncio.run(extract_categorized_keys(s, resolve_packages=True, replace_time_conditions=True)))
+        except Exception as ex:  # pylint:disable=broad-except
+            want_text, got_res = None, None
+            ctx.violation(f"extract_categorized_keys raises {type(ex).__name__}", {"s": s, "packages": pk}, key=f"extract-res:{s}")
+        if want_text is not None and canon_ties(got_res) != canon_ties(want_text):
+            ctx.violation("the extract of an expression with packages / time conditions is not the union of the extracts of what they stand for",
+                          {"s": s, "packages": pk, "extract": got_res, "extract_of_substituted_text": want_text}, key=f"extract-union:{s}")
         for rp, rt in ((False, False), (True, True)):
             try:
                 x = extract_dict(asyncio.run(extract_categorized_keys(s, resolve_packages=rp, replace_time_conditions=rt)))
